@@ -63,7 +63,7 @@ DerivePair == \E r \in Live, f \in {"copy_a", "const_x"}, c2 \in {"b", "d"} : ~H
                Alloc(NextReg(r), DerivePairT(T(r), "c", f, c2, "copy_c"), [op |-> "DerivePair", r |-> r, rd |-> NextReg(r), c |-> "c", f |-> f, c2 |-> c2, g |-> "copy_c"])
 \* per-column transforms: one function or a list of functions, of the cell alone or with further parameters naming columns
 DoMenu == {<<<<"none0">>, <<>>>>, <<<<"none0">>, <<"a">>>>, <<<<>>, <<"a">>>>,
-           <<<<"add_a">>, <<"a", "b">>>>, <<<<"add_a">>, <<"b", "a">>>>, <<<<"add_a", "add_a">>, <<"a">>>>, <<<<"none0", "add_a">>, <<"b", "a", "b">>>>,
+           <<<<"add_a">>, <<"a", "b">>>>, <<<<"add_a">>, <<"b", "a">>>>, <<<<"add_a", "add_a">>, <<"a">>>>, <<<<"add_a", "add_a">>, <<"a", "b">>>>, <<<<"none0", "add_a">>, <<"b", "a", "b">>>>,
            <<<<"or_b">>, <<"b", "a">>>>, <<<<"or_b", "none0">>, <<"a", "b">>>>, <<<<"add_a", "or_b">>, <<"c", "a">>>>}
 Do       == \E r \in Live, m \in DoMenu : Range(m[2]) \subseteq ColSet(T(r)) /\ (m[2] = <<>> => DoCellOnly(m[1])) /\
                Alloc(NextReg(r), DoT(T(r), m[1], m[2]), [op |-> "Do", r |-> r, rd |-> NextReg(r), fs |-> m[1], cs |-> m[2]])
@@ -102,6 +102,7 @@ Bound == Len(hist) <= MaxDepth /\ \A o \in 1..Len(heap) : Len(heap[o].rows) <= M
 \* the directed history form: one table in r1, a table made from it, then any of the live tables changed in place or grown
 DerivedSeeds == {[kind |-> "cols", cols |-> <<"a", "b">>, args |-> <<<<"l", <<V1, V2>>>>, <<"l", <<VX, None>>>>>>],
                  [kind |-> "cols", cols |-> <<"key", "a">>, args |-> <<<<"l", <<VX, V2>>>>, <<"l", <<V1, None>>>>>>],
+                 [kind |-> "cols", cols |-> <<"a", "b">>, args |-> <<<<"s", V1>>, <<"l", <<V1, V2, None>>>>>>],
                  [kind |-> "rows", hdrs |-> <<"a", "c">>, rows |-> <<<<V1, V2>>, <<None, VX>>>>]}
 DerivedFrom(S) == \/ hist = <<>> /\ \E s \in S : Alloc("r1", Construct(s), [op |-> "New", rd |-> "r1", seed |-> s])
                   \/ Len(hist) = 1 /\ Makers
@@ -127,6 +128,13 @@ ConcatLaw == \A ra \in Live, rb \in Live :
                 /\ NR(c) = NR(T(ra)) + NR(T(rb))
                 /\ \A i \in 1..NR(T(ra)) : \A cc \in ColSet(c) : c.rows[i][cc] = (IF cc \in ColSet(T(ra)) THEN T(ra).rows[i][cc] ELSE None)
                 /\ \A i \in 1..NR(T(rb)) : \A cc \in ColSet(c) : c.rows[NR(T(ra)) + i][cc] = (IF cc \in ColSet(T(rb)) THEN T(rb).rows[i][cc] ELSE None)
+
+\* a per-column transform with several columns / several functions is the same as its single steps one call after the other,
+\* each on the table the previous one returned (columns in the order given, for each column the functions in the order given)
+RECURSIVE DoOneByOne(_, _, _)
+DoOneByOne(t, plan, k) == IF k > Len(plan) THEN t ELSE DoOneByOne(DoT(t, <<plan[k][2]>>, <<plan[k][1]>>).t, plan, k + 1)
+DoLaw == \A r \in Live, m \in DoMenu :
+            (m[2] # <<>> /\ Range(m[2]) \subseteq ColSet(T(r)) /\ DoT(T(r), m[1], m[2]).ok) => DoT(T(r), m[1], m[2]).t = DoOneByOne(T(r), DoPlan(m[2], m[1]), 1)
 
 \* ---- what a state looks like from outside (the S2C expectation) ---------------------------------
 Observe(t) == [cols |-> t.cols, rows |-> t.rows, len |-> NR(t), shape |-> <<NR(t), Len(t.cols)>>]
